@@ -291,6 +291,8 @@ var umValues = []umVal{
 	{"f2^63", func() any { return 0x1p63 }},
 	{"f-2^63", func() any { return -0x1p63 }},
 	{"f1e-45", func() any { return 1e-45 }},
+	{"mapNaN", func() any { return map[string]any{"A": math.NaN()} }},
+	{"listInf", func() any { return []any{1.0, math.Inf(1)} }},
 }
 
 // field names a document may carry, and the keys (keyPool indexes) a definition / custom list may carry
@@ -380,7 +382,8 @@ func pickValueFor(r *Rng, name string) int {
 		"i8": {"f3", "f300", "i5", "int8(7)", "f3.5"}, "u8": {"f3", "f-1", "i-5", "f300"},
 		"f32": {"f3.5", "f1e20", "i5", "i2^40", "float32(1.5)", "fmaxf32", "f-maxf32", "f0.1", "f1e-45"}, "f64": {"f3.5", "i5", "str", "f0.1", "f2^53+2"},
 		"b": {"true", "str"}, "any": {"str", "nil", "f3", "mapP"}, "myint": {"f3", "MyInt(9)", "int(4)", "i5"},
-		"mystr": {"str", "MyStr"}, "p": {"mapP", "mapBadP", "P", "ptrP", "listInts"}, "ints": {"listInts", "listStr", "mapP", "listChan"},
+		"mystr": {"str", "MyStr"}, "p": {"mapP", "mapBadP", "P", "ptrP", "listInts", "mapNaN"}, "ints": {"listInts", "listStr", "mapP", "listChan", "listInf"},
+		"zz": {"nil", "str", "f3", "nil"},
 		"msi": {"mapSI", "mapP"}, "arr": {"arr2", "arr3", "listInts"}, "arr3": {"arr2", "arr3"},
 		"pn": {"int(4)", "f3", "ptrInt", "nilPtrInt", "i5"}, "ps": {"str", "MyStr"}, "pp": {"mapP", "mapBadP", "ptrP"},
 		"pmi": {"MyInt(9)", "int(4)"}, "http_status": {"f3", "str"}, "log_level": {"f3", "str"},
